@@ -167,6 +167,27 @@ def rec_g2(g, qs, tau, seed, jitter, cells=None):
     cidx = [geo.pixel_coordinates_2d_from(scaled_coordinates_2d=c) for c in ctr_f]
     rec["cidx"] = al.ints([list(c) for c in cidx], "cidx")
     rec["cback"] = al.ticks([list(geo.scaled_coordinates_2d_from(pixel_coordinates_2d=c)) for c in cidx], "cback")
+    # the same conversion with the pixel index given as a Python list and as a numpy integer array
+    rec["ctr_list"] = al.ticks([list(geo.scaled_coordinates_2d_from(pixel_coordinates_2d=[int(a), int(b)])) for a, b in cells], "ctr_list")
+    rec["ctr_npint"] = al.ticks([list(geo.scaled_coordinates_2d_from(pixel_coordinates_2d=np.array([a, b], dtype=np.int64))) for a, b in cells], "ctr_npint")
+
+    # INTEGER pixel coordinates fed back through the continuous conversion: the centres of `cells` go through
+    # grid_pixel_centres_2d_from; what it returns (integer dtype, as returned) goes through grid_scaled_2d_from and
+    # back through grid_pixels_2d_from.  The same whole numbers as floats and as a freshly built integer grid must
+    # give the same scaled coordinates (a conversion of pixel coordinates cannot depend on their dtype).
+    nc = len(cells)
+    gc = aa.Grid2D.no_mask(values=np.asarray([list(c) for c in ctr_f], dtype=float), shape_native=(1, nc), pixel_scales=1.0)
+    ip = geo.grid_pixel_centres_2d_from(grid_scaled_2d=gc)
+    ipa = np.array(ip)
+    rec["ip"] = al.ints(_slim(ipa, 2), "ip")
+    rec["ip_dtype_int"] = bool(np.issubdtype(ipa.dtype, np.integer))
+    sc_int = geo.grid_scaled_2d_from(grid_pixels_2d=ip)
+    rec["ip_scaled_int"] = al.ticks(_slim(sc_int, 2), "ip_scaled_int")
+    rec["ip_back"] = al.ints(_slim(geo.grid_pixels_2d_from(grid_scaled_2d=sc_int), 2), "ip_back")
+    gfl = aa.Grid2D.no_mask(values=np.asarray(ipa, dtype=float).reshape(-1, 2), shape_native=(1, nc), pixel_scales=1.0)
+    rec["ip_scaled_float"] = al.ticks(_slim(geo.grid_scaled_2d_from(grid_pixels_2d=gfl), 2), "ip_scaled_float")
+    gin = aa.Grid2D(values=np.asarray(cells, dtype=np.int64).reshape(-1, 2), mask=gc.mask)
+    rec["ip_scaled_newint"] = al.ticks(_slim(geo.grid_scaled_2d_from(grid_pixels_2d=gin), 2), "ip_scaled_newint")
 
     # grids of pixel centres
     m = rng.random((h, w)) < rng.choice([0.3, 0.6])  # True = masked
